@@ -87,6 +87,12 @@ func Leaves() []NC {
 		NC{"LiteralValue{dynamic}", func() schema.Constraint { return schema.LiteralValue{Value: cty.DynamicVal} }},
 		NC{"LiteralValue{\"a${1}b$c\"}", func() schema.Constraint { return schema.LiteralValue{Value: cty.StringVal("a${1}b$c")} }},
 		NC{"LiteralValue{\"line1\\nline2\"}", func() schema.Constraint { return schema.LiteralValue{Value: cty.StringVal("line1\nline2\n")} }},
+		NC{"LiteralValue{map_tmplkey}", func() schema.Constraint {
+			return schema.LiteralValue{Value: cty.MapVal(map[string]cty.Value{"k${3:y}": cty.StringVal("v"), "pct%{x": cty.StringVal("w")})}
+		}},
+		NC{"LiteralValue{object_oddkeys}", func() schema.Constraint {
+			return schema.LiteralValue{Value: cty.ObjectVal(map[string]cty.Value{"a b": cty.StringVal("v"), "1st": cty.NumberIntVal(2), "ok": cty.True})}
+		}},
 		NC{"LiteralValue{1e30}", func() schema.Constraint { return schema.LiteralValue{Value: cty.MustParseNumberVal("1e30")} }},
 		NC{"LiteralValue{-2.5}", func() schema.Constraint { return schema.LiteralValue{Value: cty.MustParseNumberVal("-2.5")} }},
 		NC{"LiteralValue{[]}", func() schema.Constraint { return schema.LiteralValue{Value: cty.ListValEmpty(cty.String)} }},
